@@ -1,14 +1,76 @@
-import PolyVerif.Model.Genbank
-import PolyVerif.Spec.GbLayout
+import PolyVerif.Lemmas.GenbankOrigin
+import PolyVerif.Lemmas.GenbankLocus
+import PolyVerif.Lemmas.GenbankSub
 /-
-Property C01 — theorems about the model `Genbank.parse` against the independent writer
-`GbLayout.layout`.  (Under construction: sections are added in rising difficulty.)
+Property C01 — GenBank parsing returns exactly what a well-formed record states.
+
+Theorems about the model `Genbank.parse` (Model/Genbank.lean) against the independent writer
+`GbLayout.layout` (Spec/GbLayout.lean), section by section.  Helper lemmas: Lemmas/Genbank*.lean.
+Sections not closed at full strength keep their full statement in a comment and a `…_partial`.
 -/
 namespace PolyVerif.Props.C01
-open PolyVerif PolyVerif.Str PolyVerif.Genbank PolyVerif.GbLayout
+open PolyVerif PolyVerif.Str PolyVerif.Genbank PolyVerif.GbLayout PolyVerif.Lemmas.Genbank
 
-/-- `getSequence` keeps exactly the letters: whatever is laid out between them, if it contains no
-letter, disappears -/
-theorem getSequence_letters (ls : List Str) : getSequence ls = (ls.flatten).filter isLetter := rfl
+/-! ## ORIGIN -/
+
+/-- The ORIGIN letters in order: for every letter string, every block length and number of blocks per
+line, whatever follows the sequence lines (the terminator, an empty last line) as long as it holds no letter. -/
+theorem origin_recovered (seq : Str) (bl pl : Nat) (tail : List Str) (h : seq.all isLetter = true)
+    (ht : (tail.flatten).filter isLetter = []) :
+    getSequence (originLines seq bl pl ++ tail) = seq := by
+  simp only [getSequence, List.flatten_append, List.filter_append, filter_originLines seq bl pl h, ht, List.append_nil]
+
+example : getSequence (originLines c!"acgtACGTnnacgtacgtacgtaa" 3 2 ++ [c!"//", []]) = c!"acgtACGTnnacgtacgtacgtaa" :=
+  origin_recovered _ 3 2 _ (by decide) (by decide)
+
+/-! ## LOCUS -/
+
+/- Full statement (false, see the witness):
+   `∀ l n ℓ, wfLocus l → parseLocus (locusLine l n ℓ) = .ok (toLocus l n)` -/
+
+/-- LOCUS name, length (every number of digits), molecule type (DNA, mRNA, tRNA, rRNA), topology,
+division (all 18) and date are recovered for every choice of the six gaps — for every locus that is not
+called `linear` / `circular` while having the other topology (known finding C01-locus-name-topology). -/
+theorem locus_recovered_partial (l : RLocus) (n : Nat) (ℓ : RecLayout) (h : wfLocus l = true)
+    (ht : nameTopoTrapL l = false) : parseLocus (locusLine l n ℓ) = .ok (toLocus l n) :=
+  parseLocus_locusLine l n ℓ h ht
+
+example : wfLocus ⟨c!"puc19", .dna, .circular, 9, c!"22-OCT-2019"⟩ = true
+    ∧ nameTopoTrapL ⟨c!"puc19", .dna, .circular, 9, c!"22-OCT-2019"⟩ = false := by decide
+
+/-- known finding C01-locus-name-topology: a locus called `linear` with circular topology -/
+theorem locus_name_topology_witness :
+    ¬ (∀ (l : RLocus) (n : Nat) (ℓ : RecLayout), wfLocus l = true → parseLocus (locusLine l n ℓ) = .ok (toLocus l n)) := by
+  intro h
+  have := h ⟨c!"linear", .dna, .circular, 6, c!"01-JAN-2020"⟩ 4 {} (by decide)
+  revert this
+  decide
+
+/-! ## keyword blocks -/
+
+/-- DEFINITION, ACCESSION, VERSION, KEYWORDS, ORGANISM, AUTHORS … and every other keyword block: the
+wrapped lines are re-joined to the text, for every text (printable, no blank at either end), every set of
+break positions, every keyword of at most 11 characters (sub-keywords with their indentation stripped by
+the caller are the case `kw` = the bare word), whatever line stops the block (`Stop`: the next keyword or
+sub-keyword line) and whatever follows. -/
+theorem sublines_rejoined (kw : Str) (k : Nat) (t : Str) (bs : List Nat) (stop : Str) (rest : List Str)
+    (hk : ' ' ∉ kw) (ht : isText t = true) (hs : Stop stop) :
+    joinSubLines (split (kw ++ (spaces (k + 1) ++ (wrapText bs t).headD [])) c!" ")
+      (((wrapText bs t).drop 1).map (spaces 12 ++ ·) ++ stop :: rest) = .ok t :=
+  joinSubLines_chunks kw k t bs stop rest hk ht hs
+
+/-- the same, read on the lines of `block` -/
+theorem block_rejoined (kw t : Str) (bs : List Nat) (stop : Str) (rest : List Str)
+    (hk : ' ' ∉ kw) (hl : kw.length ≤ 11) (ht : isText t = true) (hs : Stop stop) :
+    joinSubLines (split ((block kw t bs).headD []) c!" ") ((block kw t bs).drop 1 ++ stop :: rest) = .ok t := by
+  rw [block_eq]
+  simp only [List.headD_cons, List.drop_succ_cons, List.drop_zero, padRight]
+  obtain ⟨k, hk12⟩ : ∃ k, 12 - kw.length = k + 1 := ⟨11 - kw.length, by omega⟩
+  rw [hk12, List.append_assoc]
+  exact joinSubLines_chunks kw k t bs stop rest hk ht hs
+
+example : isText c!"Construction of improved M13 vectors using oligodeoxynucleotide-directed mutagenesis." = true
+    ∧ Stop c!"ACCESSION   ." ∧ Stop c!"  JOURNAL   Gene" := by
+  refine ⟨by decide, Or.inl (by decide), Or.inr ⟨by decide, by decide⟩⟩
 
 end PolyVerif.Props.C01
